@@ -47,4 +47,13 @@ def run(tier, seed, pid='C16', pack=None):
                                  'kind': 'bounded native: kundur_full', 'cases': n, 'counted_as_proved': False})
             if bad:
                 pack.violation(name, {'bounded': True, 'inputs': bad, 'native_cmd': 'contracts/bounded_backends.py'})
+        from contracts import bounded_hashseed as BH
+        hname = 'C16/andes/system.py:System/bounded:fresh-processes-with-different-string-hash-seeds-give-bit-identical-solutions'
+        r = native_guard(pack, hname, BH.run)
+        if r is not None:
+            n, bad = r
+            pack.bounded.append({'function': 'PFlow.run (ieee14) and TDS.run (kundur_full, 0.5 s) in fresh interpreter processes', 'processes': n,
+                                 'kind': 'bounded native: PYTHONHASHSEED = 0, 1, 2, 4; raw bytes of the solution vectors compared', 'counted_as_proved': False})
+            if bad:
+                pack.violation(hname, {'bounded': True, 'inputs': bad, 'native_cmd': 'contracts/bounded_hashseed.py'})
         return pack.finish()
